@@ -152,139 +152,7 @@ func settingsModel(c *Ctx, report bool) *settingsModelT {
 	var leaves []settingsLeaf
 	settingsLeaves(root.Type(), "", &leaves)
 
-	// collect assignments
-	var assigns []settingsAssign
-	// walk visits the statements of the apply function (and of the helpers it hands a part of the settings
-	// and a raw map to); `root` is the variable holding the settings (or a section of them, then `prefix`
-	// is that section's path), `mapObj` the raw map being read, `section` the nested key it was found under.
-	var walk func(list []ast.Stmt, root types.Object, prefix string, section string, mapObj types.Object, depth int)
-	pathOf := func(e ast.Expr, root types.Object, prefix string) (string, bool) {
-		p, ok := selectorPath(info, e, root)
-		if !ok {
-			return "", false
-		}
-		if prefix != "" && p != "" {
-			return prefix + "." + p, true
-		}
-		return prefix + p, true
-	}
-	walk = func(list []ast.Stmt, root types.Object, prefix string, section string, mapObj types.Object, depth int) {
-		for _, st := range list {
-			ifs, ok := st.(*ast.IfStmt)
-			if !ok {
-				// `settings.Sec = helper(settings.Sec, secRaw)`: the helper applies the keys of secRaw to the section
-				if as, ok := st.(*ast.AssignStmt); ok && len(as.Lhs) == 1 && len(as.Rhs) == 1 && depth < 3 {
-					if call, ok := ast.Unparen(as.Rhs[0]).(*ast.CallExpr); ok && len(call.Args) == 2 {
-						lp, okL := pathOf(as.Lhs[0], root, prefix)
-						ap, okA := pathOf(call.Args[0], root, prefix)
-						if o, isFn := calleeOf(info, call).(*types.Func); isFn && okL && okA && lp == ap && info.Uses[identOf(call.Args[1])] == mapObj && mapObj != nil {
-							if decl := c.P.declOf[o]; decl != nil && decl.Body != nil && decl.Type.Params != nil {
-								var ps []types.Object
-								for _, fl := range decl.Type.Params.List {
-									for _, n := range fl.Names {
-										ps = append(ps, info.Defs[n])
-									}
-								}
-								if len(ps) == 2 && returnsParam(info, decl, ps[0]) {
-									walk(decl.Body.List, ps[0], lp, section, ps[1], depth+1)
-									continue
-								}
-							}
-						}
-					}
-				}
-				// `assign(&settings.Sec.Leaf, secRaw["key"])`: a helper that stores the converted value through the
-				// pointer only when the conversion succeeded
-				if es, ok := st.(*ast.ExprStmt); ok {
-					if call, ok := es.X.(*ast.CallExpr); ok && len(call.Args) == 2 {
-						if u, ok := ast.Unparen(call.Args[0]).(*ast.UnaryExpr); ok && u.Op == token.AND {
-							if pth, ok := pathOf(u.X, root, prefix); ok && pth != prefix {
-								if ix, ok := ast.Unparen(call.Args[1]).(*ast.IndexExpr); ok && info.Uses[identOf(ix.X)] == mapObj && mapObj != nil {
-									if key, isConst := stringConst(info, ix.Index); isConst {
-										if o, isFn := calleeOf(info, call).(*types.Func); isFn {
-											if conv, guarded, ok := guardedPointerStore(c.P, info, c.P.declOf[o]); ok {
-												assigns = append(assigns, settingsAssign{section, key, conv, pth, guarded, call.Pos()})
-												continue
-											}
-										}
-									}
-								}
-							}
-						}
-					}
-				}
-				// assignments to settings outside an ok-guard
-				ast.Inspect(st, func(x ast.Node) bool {
-					if as, ok := x.(*ast.AssignStmt); ok {
-						for _, l := range as.Lhs {
-							if p, ok := pathOf(l, root, prefix); ok && p != prefix {
-								assigns = append(assigns, settingsAssign{section, "?", "?", p, false, as.Pos()})
-							}
-						}
-					}
-					return true
-				})
-				continue
-			}
-			init, ok := ifs.Init.(*ast.AssignStmt)
-			if !ok || len(init.Rhs) != 1 || len(init.Lhs) != 2 {
-				walk(ifs.Body.List, root, prefix, section, mapObj, depth)
-				continue
-			}
-			okObj := info.Defs[identOf(init.Lhs[1])]
-			condIsOK := false
-			if id, ok := ast.Unparen(ifs.Cond).(*ast.Ident); ok && info.Uses[id] == okObj && okObj != nil {
-				condIsOK = true
-			}
-			switch rhs := ast.Unparen(init.Rhs[0]).(type) {
-			case *ast.TypeAssertExpr:
-				// section: raw["sec"].(map[string]interface{})
-				if ix, ok := ast.Unparen(rhs.X).(*ast.IndexExpr); ok {
-					if key, ok := stringConst(info, ix.Index); ok && info.Uses[identOf(ix.X)] == mapObj {
-						walk(ifs.Body.List, root, prefix, key, info.Defs[identOf(init.Lhs[0])], depth)
-						continue
-					}
-				}
-			case *ast.CallExpr:
-				conv := ""
-				if o := calleeOf(info, rhs); o != nil {
-					conv = o.Name()
-				}
-				if len(rhs.Args) == 1 {
-					if ix, ok := ast.Unparen(rhs.Args[0]).(*ast.IndexExpr); ok {
-						key, isConst := stringConst(info, ix.Index)
-						if isConst && info.Uses[identOf(ix.X)] == mapObj {
-							valObj := info.Defs[identOf(init.Lhs[0])]
-							for _, bs := range ifs.Body.List {
-								as, ok := bs.(*ast.AssignStmt)
-								if !ok {
-									continue
-								}
-								for i, l := range as.Lhs {
-									if p, ok := pathOf(l, root, prefix); ok && p != prefix {
-										// RHS must be the converted value (possibly scaled by a constant)
-										usesVal := false
-										if i < len(as.Rhs) {
-											ast.Inspect(as.Rhs[i], func(y ast.Node) bool {
-												if id, ok := y.(*ast.Ident); ok && info.Uses[id] == valObj {
-													usesVal = true
-												}
-												return true
-											})
-										}
-										assigns = append(assigns, settingsAssign{section, key, conv, p, condIsOK && usesVal && ifs.Else == nil, as.Pos()})
-									}
-								}
-							}
-							continue
-						}
-					}
-				}
-			}
-			walk(ifs.Body.List, root, prefix, section, mapObj, depth)
-		}
-	}
-	walk(applyFd.Body.List, root, "", "", rawObj, 0)
+	assigns := interpretSettings(c, info, applyFd, root, rawObj)
 	return &settingsModelT{applyFd, normFd, root, rawObj, leaves, assigns}
 }
 
@@ -386,34 +254,25 @@ func ruleSettings(c *Ctx) {
 		keyOwner[k] = a.target
 	}
 
-	// normaliser: every numeric leaf has a non-positive (or negative) guard that restores a default
-	ninfo := info
-	var nroot types.Object
-	for _, fl := range normFd.Type.Params.List {
-		for _, n := range fl.Names {
-			nroot = ninfo.Defs[n]
+	// normaliser: value-range analysis.  Whatever the input, a numeric leaf leaves the normaliser at least as large
+	// as 1 when its default is positive (a non-positive value falls back to something valid), and non-negative
+	// otherwise.
+	_ = info
+	ranges, rt := resultRanges(c.P.ssaOf(normFd))
+	var defaults structState
+	for _, f := range c.P.ModuleFuncs() {
+		if f.Pkg == c.P.SSAPkg("internal/server") && f.Signature.Recv() == nil && f.Signature.Params().Len() == 0 && f.Signature.Results().Len() == 1 &&
+			rt != nil && types.Identical(f.Signature.Results().At(0).Type(), rt) {
+			defaults, _ = resultRanges(f)
 		}
 	}
-	guardedLeaves := map[string]string{}
-	for _, g := range guardsIn(normFd.Body) {
-		be, ok := ast.Unparen(g.Cond).(*ast.BinaryExpr)
-		if !ok {
-			continue
-		}
-		p, ok := selectorPath(ninfo, be.X, nroot)
-		if !ok {
-			continue
-		}
-		// body assigns the same leaf
-		for _, bs := range g.Body {
-			if as, ok := bs.(*ast.AssignStmt); ok {
-				for _, l := range as.Lhs {
-					if p2, ok := selectorPath(ninfo, l, nroot); ok && p2 == p {
-						guardedLeaves[p] += be.Op.String() + exprStr(c.P.Fset, be.Y) + " "
-					}
-				}
-			}
-		}
+	byName := map[string]ival{}
+	defByName := map[string]ival{}
+	for _, p := range sortedLeafPaths(ranges) {
+		byName[leafName(rt, p)] = ranges[p]
+	}
+	for _, p := range sortedLeafPaths(defaults) {
+		defByName[leafName(rt, p)] = defaults[p]
 	}
 	nNum := 0
 	for _, lf := range leaves {
@@ -422,11 +281,19 @@ func ruleSettings(c *Ctx) {
 			continue
 		}
 		nNum++
-		g := guardedLeaves[lf.path]
-		okG := strings.Contains(g, "<=0") || strings.Contains(g, "<0") || strings.Contains(g, "<= 0") || strings.Contains(g, "< 0")
+		r, okR := byName[lf.path]
+		if !okR {
+			c.undecided("T6", nname, "non-positive "+lf.path+" normalised", normFd.Pos(), "the value-range analysis did not produce a range for this leaf")
+			continue
+		}
+		need := int64(0)
+		if d, ok := defByName[lf.path]; ok && !d.loInf && d.lo >= 1 {
+			need = 1
+		}
+		okG := !r.loInf && r.lo >= need
 		c.check(okG, "T6", nname, "non-positive "+lf.path+" normalised", normFd.Pos(),
-			"numeric leaf has a non-positive guard restoring a valid value ("+strings.TrimSpace(g)+")",
-			"numeric settings leaf "+lf.path+" has no `<= 0` guard in the normaliser: a non-positive value does not fall back to the default")
+			fmt.Sprintf("the normalised value lies in %s for every input (needed: >= %d)", r, need),
+			fmt.Sprintf("numeric settings leaf %s can leave the normaliser in %s (needed: >= %d): a non-positive value does not fall back to a valid one", lf.path, r, need))
 	}
 	c.census("T6", "numeric settings leaves", nNum, 5)
 	// every leaf is read outside the settings parser (effective)
@@ -736,10 +603,15 @@ func ruleSettingsTotal(c *Ctx) {
 					}
 					bad = "explicit panic at " + c.P.pos(x.Pos())
 				case *ssa.IndexAddr:
-					bad = "slice/array indexing at " + c.P.pos(x.Pos())
+					if !safeIndexAddr(x) {
+						bad = "slice/array indexing at " + c.P.pos(x.Pos())
+					}
 				case *ssa.Index:
 					bad = "indexing at " + c.P.pos(x.Pos())
 				case *ssa.Slice:
+					if _, fresh := x.X.(*ssa.Alloc); fresh && x.Low == nil && x.High == nil && x.Max == nil {
+						continue // `[]T{...}`: the whole of a freshly allocated array
+					}
 					bad = "slicing at " + c.P.pos(x.Pos())
 				case *ssa.BinOp:
 					if x.Op == token.QUO || x.Op == token.REM {
@@ -780,4 +652,62 @@ func ruleSettingsTotal(c *Ctx) {
 			}
 		}
 	}
+}
+
+// safeIndexAddr: the element address cannot be out of range: a constant index into a freshly allocated array
+// (composite literal), or a loop counter (starting at a constant, stepped by one) that is tested against the
+// length of the same slice on the way to the access.
+func safeIndexAddr(x *ssa.IndexAddr) bool {
+	if al, ok := x.X.(*ssa.Alloc); ok {
+		if at, ok := al.Type().Underlying().(*types.Pointer).Elem().Underlying().(*types.Array); ok {
+			if k, ok := x.Index.(*ssa.Const); ok && k.Value != nil && k.Int64() >= 0 && k.Int64() < at.Len() {
+				return true
+			}
+		}
+	}
+	counter := func(v ssa.Value) bool {
+		// i = phi(const, i+1)  or  i+1 of such a phi
+		if bo, ok := v.(*ssa.BinOp); ok && bo.Op == token.ADD {
+			if k, ok := bo.Y.(*ssa.Const); ok && k.Value != nil && k.Int64() == 1 {
+				v = bo.X
+			}
+		}
+		phi, ok := v.(*ssa.Phi)
+		if !ok {
+			return false
+		}
+		for _, e := range phi.Edges {
+			switch y := e.(type) {
+			case *ssa.Const:
+				if y.Value == nil || y.Int64() < -1 {
+					return false
+				}
+			case *ssa.BinOp:
+				k, ok := y.Y.(*ssa.Const)
+				if y.Op != token.ADD || y.X != ssa.Value(phi) || !ok || k.Value == nil || k.Int64() != 1 {
+					return false
+				}
+			default:
+				return false
+			}
+		}
+		return true
+	}
+	if !counter(x.Index) {
+		return false
+	}
+	for _, cc := range controlCondsPol(x.Block()) {
+		bo, ok := cc.Cond.(*ssa.BinOp)
+		if !ok || bo.Op != token.LSS || !cc.Taken || bo.X != x.Index {
+			continue
+		}
+		if call, ok := bo.Y.(*ssa.Call); ok {
+			if bi, ok := call.Call.Value.(*ssa.Builtin); ok && bi.Name() == "len" && len(call.Call.Args) == 1 {
+				if call.Call.Args[0] == x.X || sameLoad(call.Call.Args[0], x.X) {
+					return true
+				}
+			}
+		}
+	}
+	return false
 }
